@@ -38,6 +38,10 @@ def configs(quick):
             out.append(dict(dev=dev, smooth=smooth, gamma=gamma, u=(5.79 if gamma else 1.0), adaptive=adaptive, screening=(dev == "ring" and gamma == 10.0)))
     if not quick:
         out.append(dict(dev="bar", smooth=0, gamma=10.0, u=0.5, adaptive=True, screening=True))
+    # long quiet runs ("all steps"): 5 tau with dt_max below and 30 tau with dt_max above the stability limit
+    # dt * lambda_max(-Laplacian) / u < 2 of the explicit step (u = 1, gamma = 0: the smallest damping)
+    out.append(dict(dev="bar_hole", smooth=3, gamma=0.0, u=1.0, adaptive=True, screening=False, long=True, dt_max=0.01, T=5.0))
+    out.append(dict(dev="bar_hole", smooth=3, gamma=0.0, u=1.0, adaptive=True, screening=False, long=True, dt_max=0.1, T=30.0))
     return out
 
 
@@ -56,10 +60,10 @@ def eval_config(ctx, cfg, with_model=True):
     out = os.path.join(str(ctx.work), "c17.h5")
     if os.path.exists(out):
         os.remove(out)
-    o = dict(dt_init=1e-3, dt_max=0.1, adaptive=cfg["adaptive"], adaptive_window=3, terminal_psi=None, include_screening=cfg["screening"], screening_tolerance=1e-3)
+    o = dict(dt_init=1e-3, dt_max=cfg.get("dt_max", 0.1), adaptive=cfg["adaptive"], adaptive_window=3, terminal_psi=None, include_screening=cfg["screening"], screening_tolerance=1e-3)
     nsteps = 12
-    T = (1e-3 * nsteps) if not cfg["adaptive"] else 0.6
-    opts = runs.options(solve_time=T, save_every=2, output_file=out, progress_interval=10**9, **o)
+    T = cfg.get("T") or ((1e-3 * nsteps) if not cfg["adaptive"] else 0.6)
+    opts = runs.options(solve_time=T, save_every=(20 if cfg.get("long") else 2), output_file=out, progress_interval=10**9, **o)
     sol = tdgl.solve(dev, opts)  # no field, no current, epsilon = 1
     frames, _ = runs.parse_h5(sol.path)
     worst = 0.0
@@ -68,15 +72,20 @@ def eval_config(ctx, cfg, with_model=True):
         dev_ = max(float(np.abs(d["psi"] - 1).max()), float(np.abs(d["mu"]).max()), float(np.abs(d["supercurrent"]).max()), float(np.abs(d["normal_current"]).max()),
                    float(np.abs(d["induced_vector_potential"]).max()))
         worst = max(worst, dev_)
-        ctx.case((cfg["dev"], cfg["gamma"], cfg["adaptive"], cfg["screening"], fr["step"]), nontrivial=fr["step"] > 0)
+        ctx.case((cfg["dev"], cfg["gamma"], cfg["adaptive"], cfg["screening"], cfg.get("dt_max", 0.1), fr["step"]), nontrivial=fr["step"] > 0)
         if dev_ > 1e-10:
-            fail("uniform-state-drifts", f"step {fr['step']}: deviation from psi=1, mu=0, J=0 is {dev_:.3e}", step=fr["step"], deviation=dev_)
+            key = "uniform-state-drifts" + (f":long:{cfg['dev']}:gamma={cfg['gamma']}:u={cfg['u']}:dt_max={cfg['dt_max']}" if cfg.get("long") else "")
+            fail(key, f"step {fr['step']} (t = {float(fr['time']):.3g}): deviation from psi=1, mu=0, J=0 is {dev_:.3e} (gamma={cfg['gamma']}, u={cfg['u']}, dt_max={o['dt_max']})", step=fr["step"], deviation=dev_)
             break
     ctx.tol("max deviation from the uniform state", worst, 1e-10)
     ctx.count(f"gamma={cfg['gamma']}")
     ctx.count("adaptive" if cfg["adaptive"] else "fixed")
     ctx.count("screening" if cfg["screening"] else "no_screening")
     dts = np.asarray(sol.dynamics.dt)
+    if cfg.get("long") and first is not None:
+        # once the state has left psi = 1 the controller legitimately reduces the step: the time-step clauses are
+        # consequences of the drift already reported, not separate failures
+        return first
     if cfg["adaptive"]:
         w = o["adaptive_window"]
         # proposal is made at steps > window; it is used from the next step on
@@ -114,6 +123,10 @@ def replay(payload):
     ctx = V.Ctx("C17", "quick", int(payload.get("seed", 0)))
     try:
         cfg = {k: payload[k] for k in ("dev", "smooth", "gamma", "u", "adaptive", "screening")}
+        cfg.update({k: payload[k] for k in ("long", "dt_max", "T") if k in payload})
+        for k in ("gamma", "u", "dt_max", "T"):
+            if k in cfg:
+                cfg[k] = float(cfg[k])
         return eval_config(ctx, cfg, with_model=False) is None
     finally:
         ctx.cleanup()
